@@ -27,6 +27,7 @@ NData ==
 NProps == \E name \in {"Probe", "Create", "PWrite", "Close", "Rename", "Remove"} : \E ok \in {TRUE, FALSE} :
             PropsOp(name, ok) /\ UNCHANGED <<npw, rlist, ropen>>
 NCrash == Crash /\ UNCHANGED <<npw, rlist, ropen>>
+NRestart == Restart /\ UNCHANGED <<npw, rlist, ropen>>
 \* the reader is a separate process: it keeps running after the writer died
 NRList == /\ rlist' = (IF pst.st = "final" THEN Finals ELSE {}) /\ ropen' = {}
           /\ last' = [a |-> "RList"] /\ UNCHANGED <<pvars, npw>>
@@ -45,7 +46,11 @@ DevReopenFinal == "create-final" \in Deviations /\ \E j \in 1..NW :
 DevPropsUnstaged == "props-unstaged" \in Deviations /\ pst.st = "none" /\ pst' = [st |-> "final", bad |-> FALSE, cl |-> FALSE]
    /\ last' = Op("DevPropsUnstaged", 0, TRUE) /\ UNCHANGED <<cfg, fst, want, acc, calls, crashed, flt, npw, rlist, ropen>>
 
-Next == (Alive /\ (NData \/ NProps \/ NCrash \/ DevRenameOpen \/ DevRenameBad \/ DevReopenFinal \/ DevPropsUnstaged)) \/ NRList \/ NROpen
+DevPublishOrphan == "publish-orphan" \in Deviations /\ \E j \in 1..NW :
+   /\ fst[j].st = "orphan" /\ fst' = [fst EXCEPT ![j].st = "final"]
+   /\ last' = Op("DevPublishOrphan", j, TRUE) /\ UNCHANGED <<cfg, pst, want, acc, calls, crashed, flt, npw, rlist, ropen>>
+
+Next == NRestart \/ DevPublishOrphan \/ (Alive /\ (NData \/ NProps \/ NCrash \/ DevRenameOpen \/ DevRenameBad \/ DevReopenFinal \/ DevPropsUnstaged)) \/ NRList \/ NROpen
 \* the fault counter is advanced by the wrapper: DrfFs actions say UNCHANGED flt, so count failures in a constraint instead
 Spec == Init /\ [][Next]_mcvars
 FaultBound == Cardinality({j \in 1..NW : fst[j].bad}) + (IF pst.bad THEN 1 ELSE 0) <= MaxFaults
@@ -54,9 +59,11 @@ FaultBound == Cardinality({j \in 1..NW : fst[j].bad}) + (IF pst.bad THEN 1 ELSE 
 ReaderNeverFails == \A j \in rlist : fst[j].st = "final" /\ fst[j].cl
 ReaderSeesProps == rlist # {} => (pst.st = "final" /\ pst.cl)
 \* C02: in every reachable state (= every crash point) what is under a final name is complete
-CrashSafe == crashed => (FinalComplete /\ PropsPublishedComplete)
+CrashSafe == crashed = 1 => (FinalComplete /\ PropsPublishedComplete)
 \* witnesses
-W_NoCrashWithTmp == ~(crashed /\ Tmps # {})
+W_NoCrashWithTmp == ~(crashed = 1 /\ Tmps # {})
+W_NoOrphanRecreated == ~(crashed = 2 /\ \E j \in 1..NW : fst[j].st = "final" /\ last.a = "Rename" /\ last.j = j /\ Orphans # {})
+W_NoOrphanRemoved == ~(last.a = "RemoveTmp" /\ crashed = 2)
 W_NoFinalAfterFault == ~(Finals # {} /\ \E j \in Finals : fst[j].bad)
 W_ReaderNeverListsTwo == Cardinality(rlist) < 2
 =============================================================================
